@@ -536,10 +536,13 @@ def build():
     fns['insert_before'] = Fn(FI, TR, 'insert_before', props=P, sig_rules=SR, rules=[R_BEFORE, R_PLB, R_REG], label='HasChildren::insert_before (trait default)',
                               ensures=[('C13+C14:refused_call_changes_nothing', f'r is Err ==> {UNCHANGED}'),
                                        ('C13:unknown_reference_is_refused', '!old(self).children@.contains(id) ==> r is Err'),
-                                       ('C13:out_of_index_exactly_when_the_reference_is_not_a_child_or_is_the_node_itself', '(!old(self).children@.contains(id) || value.ident == id) <==> (r is Err && r->Err_0 is OufOfIndex)'),
+                                       # (a node inserted before ITSELF: DOM Level 1 does not say; refused with OufOfIndex today, and a call that succeeded and changed
+                                       # nothing would be as good -- the clauses below leave that corner open rather than pin it down)
+                                       ('C13:out_of_index_exactly_when_the_reference_is_not_a_child_or_is_the_node_itself',
+                                        '(!old(self).children@.contains(id) ==> r is Err && r->Err_0 is OufOfIndex) && (r is Err && r->Err_0 is OufOfIndex ==> !old(self).children@.contains(id) || value.ident == id)'),
                                        ('C13:accepted_child_is_in_the_list_and_numbered', 'r is Ok ==> final(self).children@.contains(value.ident)'),
-                                       ('C13:succeeds_exactly_when_reference_and_node_are_acceptable', 'r is Ok <==> (old(self).children@.contains(id) && value.ident != id && old(self).accepts(value))'),
-                                       ('C13:the_child_lands_directly_before_the_reference', 'r is Ok ==> final(self).children@ == Parent::inserted_before(old(self).children@, value.ident, id)'),
+                                       ('C13:succeeds_exactly_when_reference_and_node_are_acceptable', '(r is Ok ==> old(self).children@.contains(id)) && (value.ident != id ==> (r is Ok <==> (old(self).children@.contains(id) && old(self).accepts(value))))'),
+                                       ('C13:the_child_lands_directly_before_the_reference', '(r is Ok && value.ident != id ==> final(self).children@ == Parent::inserted_before(old(self).children@, value.ident, id)) && (r is Ok && value.ident == id ==> final(self).children@ == old(self).children@)'),
                                        ('C12:the_listed_handle_is_the_one_the_id_resolves_to', 'r is Ok ==> final(self).registered@.dom().contains(value.ident) && final(self).registered@[value.ident] == value.alloc@'),
                                        ('C14:whole_subtree_is_numbered_before_the_reference', 'r is Ok && old(self).order@.contains(id) && !value.subtree@.contains(id) && old(self).order@.no_duplicates() && value.subtree@.no_duplicates() ==> final(self).order@ == placed_before(old(self).order@, id, value.subtree@)')])
     fns['insert_after'] = Fn(FI, TR, 'insert_after', props=P, sig_rules=SR, label='HasChildren::insert_after (trait default)',
@@ -548,9 +551,9 @@ def build():
                                       ('C13:unknown_reference_is_refused', '!old(self).children@.contains(id) ==> r is Err'),
                                       ('C13:accepted_child_is_in_the_list_and_numbered', 'r is Ok ==> final(self).children@.contains(value.ident)'),
                                       ('C13:the_child_lands_directly_after_the_reference',
-                                       'r is Ok ==> final(self).children@ == (if old(self).children@.index_of(id) + 1 < old(self).children@.len()'
-                                       ' { Parent::inserted_before(old(self).children@, value.ident, old(self).children@[old(self).children@.index_of(id) + 1]) }'
-                                       ' else { without_id(old(self).children@, value.ident).push(value.ident) })'),
+                                       '({ let l = old(self).children@; let k = l.index_of(id) + 1; r is Ok ==> final(self).children@ == (if k < l.len()'
+                                       ' { if value.ident != l[k] { Parent::inserted_before(l, value.ident, l[k]) } else { l } }'   # (already directly after the reference: see insert_before)
+                                       ' else { without_id(l, value.ident).push(value.ident) }) })'),
                                       ('C12:the_listed_handle_is_the_one_the_id_resolves_to', 'r is Ok ==> final(self).registered@.dom().contains(value.ident) && final(self).registered@[value.ident] == value.alloc@')])
     R_PRIM = [Rule('R43', r'value\.parent_id\(\)', 'self.world_parent_id(&value)', 'the parent link lives in the shared world: read through the receiver'),
               Rule('R43', r'value\.remove_from_parent\(\);', 'self.world_remove_from_parent(&value);', 'the item leaves its old parent: shared world made explicit on the receiver'),
